@@ -149,7 +149,7 @@ def explore(task):
         + (rw.V1_DIALOG if dialog_world else "") + RET,
         "rails:\n  input:\n    flows: [in1, in2]\n  output:\n    flows: [out1, out2]\n" + RET_YAML,
     )
-    outs_in, outs_out = outcomes(IN_ORDER), outcomes(OUT_ORDER)
+    outs_in, outs_out = outcomes(IN_ORDER, with_none=False), outcomes(OUT_ORDER, with_none=False)
     n = [0]
     for subset in subsets:
         sel = set(subset)
